@@ -275,10 +275,13 @@ def wrap64(z):
 
 
 class Entry:
-    __slots__ = ("val", "flag", "vers", "live")
+    __slots__ = ("val", "flag", "vers", "live", "dvers")
 
     def __init__(self, val, flag, vers, live):
+        # vers: versions the index may report now; dvers: versions backed by a data record (what a rebuilt index reports) --
+        # they differ only after a same-value explicit-revision set under check_vhash, which updates the tree alone
         self.val, self.flag, self.vers, self.live = val, flag, set(vers), live
+        self.dvers = set(vers)
 
 
 def refmap_oracle(c, collide=False):
@@ -378,6 +381,8 @@ def refmap_oracle(c, collide=False):
                     else:
                         if ver in e.vers:
                             e.vers = {ver}
+                            if ver in e.dvers:
+                                e.dvers = {ver}
                     if (vh, fl, ln) != (vhash(e.val), e.flag, len(e.val)):
                         bad("meta-fields", "meta value-hash/flags/length differ from the last accepted write", idx)
                 else:
@@ -400,6 +405,8 @@ def refmap_oracle(c, collide=False):
                         f[1], vhash(e.val), " (after restart/GC)" if after_rebuild else ""), idx)
         elif t in ("R", "C"):
             after_rebuild = True
+            for e2 in st.values():      # an index rebuilt from the data files reports the data-backed version again
+                e2.vers = set(e2.vers) | set(e2.dvers)
             if t == "R" and o["res"] != "OK":
                 bad("restart-refused", "clean restart refused to open", idx)
                 break
